@@ -66,6 +66,11 @@ Definition conflicts (m : mig) (r : Z * string) : bool :=
 Definition id_conflict (ms : list mig) (d : dbstate) : bool :=
   existsb (fun m => existsb (conflicts m) (db_rows (bootstrap d))) ms.
 
+(* every comparison of lib.rs:153/198 passes on the ids the run will read (implied by [id_conflict = false]
+   on a database recorded at some version; false as soon as one recorded id conflicts) *)
+Definition ids_ok (ms : list mig) (d : dbstate) : bool :=
+  forallb (fun m => match id_check (decode_ids (db_rows (bootstrap d))) m with None => true | Some _ => false end) ms.
+
 (* ---------- how many connection calls one instance can make (C11, termination) ---------- *)
 Definition plan_bound (o : opts) (ms : list mig) : nat :=
   S (fold_right (fun m acc => List.length (stmts_of o m) + 1 + acc) 0 ms).
